@@ -252,8 +252,11 @@ fn project_of(c: &Case, corpus: Option<&Corpus>) -> Project {
             files = cp.files.clone();
         }
     }
+    // SyltPipeline's text family spells non-ASCII characters as ASCII placeholders (TLC must not see non-ASCII text)
+    let subst = c.kind == "fam:text";
     for (k, v) in &c.files {
-        files.insert(k.clone(), v.clone());
+        let text = if subst { v.replace("@2@", "\u{e9}").replace("@3@", "\u{65e5}").replace("@4@", "\u{1F600}") } else { v.clone() };
+        files.insert(k.clone(), text);
     }
     Project { files, main: c.main.clone() }
 }
